@@ -62,6 +62,7 @@ func GenField(r *vh.Rng, owner string, idx int, o GenOpts) Field {
 	if o.Lists && r.Chance(30) {
 		f.Ret.List = true
 		f.Ret.ElemNN = r.Chance(20)
+		f.Ret.List2 = r.Chance(30) // [[T]]
 	}
 	if f.Ret.Ptr && r.Chance(12) {
 		f.Ret.NN = true
